@@ -83,6 +83,40 @@ def cli_sample(rng, res, n):
                                      '--nums entry %d outside the source' % bad[0]))
 
 
+def cli_boundaries(res):
+    """the --nums file at the boundaries: empty output, one character, output
+    longer than any block size a writer might use, input without final line
+    break; one number per character of stdout, each inside the source"""
+    from yalafi import tex2txt
+    texts = ['', '% only a comment\n', 'x', 'x\n', 'Word \\textbf{two} three.',
+             ' '.join('w%d' % i for i in range(4000)) + '\n',
+             '\n\n'.join('Absatz %d mit Text.' % i for i in range(1500))]
+    for t in texts:
+        rc, out, err, files = shellrun.run_filter(['--nums', 'nums.txt', 'in.tex'],
+                                                  files={'in.tex': t})
+        res.count('cli-boundary', ('cli-boundary', t[:40], len(t)), nontrivial=len(t) > 100)
+        key = 'cli-boundary:%r:%d' % (t[:40], len(t))
+        case = {'latex': t if len(t) < 300 else t[:300] + '...', 'length': len(t), 'cli': True}
+        nums = files.get('nums.txt')
+        if rc != 0 or nums is None:
+            res.failures.append((key, case, 'exit %d, --nums file %s' % (rc, 'missing' if nums is None else 'there')))
+            continue
+        lines = nums.split('\n')
+        if lines and lines[-1] == '':
+            lines = lines[:-1]
+        api = tex2txt.tex2txt(t, tex2txt.Options())
+        if out != api[0]:
+            res.failures.append((key, case, 'standard output differs from the text of tex2txt(): '
+                                 '%d / %d characters, tails %r / %r'
+                                 % (len(out), len(api[0]), out[-20:], api[0][-20:])))
+        elif len(lines) != len(out) or any(not x.rstrip('+').isdigit() for x in lines):
+            res.failures.append((key, case, '%d lines in the --nums file for %d characters '
+                                 '(first odd line: %r)' % (len(lines), len(out),
+                                 next((x for x in lines if not x.rstrip('+').isdigit()), None))))
+        elif [x for x in lines if not 1 <= int(x.rstrip('+')) <= max(1, len(t))]:
+            res.failures.append((key, case, '--nums entry outside the source'))
+
+
 def cli_mula_sample(rng, res, n):
     """python -m yalafi --mula out --nums nums: one pair of files per text
     part; one number per character, each inside the source; the API gives the
@@ -145,6 +179,7 @@ def run(tier, seed, build, res):
                      sample_rule=lambda c, im: any(t for _, t, _ in universe.texts_of(im)))
     cli_sample(rng, res, 3 if tier == 'quick' else 30)
     cli_mula_sample(rng, res, 3 if tier == 'quick' else 30)
+    cli_boundaries(res)
 
 
 def replay(payload, build, res):
